@@ -28,6 +28,10 @@ type Lens[S, A any] interface {
 
 // NewLens instantiates a typed Lens[S, A] for hseq.Type[S]
 func NewLens[S, A any](t hseq.Type[S]) Lens[S, A] {
+	if cat := reflect.TypeOf(new(S)).Elem(); cat.Kind() != reflect.Struct {
+		panic(fmt.Errorf("invalid type: Lens[%s, %s] container must be a struct, got %s", cat, t.Type, cat.Kind()))
+	}
+
 	ft := t.Type
 	fv := reflect.TypeOf(new(A)).Elem()
 
